@@ -2,7 +2,7 @@
 # development aid: run one scratch-crate harness for N seconds and summarise where CBMC spends its unwinding
 # usage: tool/xprobe.sh <unit-xcname e.g. db-height-commit> <harness> <secs> [extra cargo-kani args...]
 x=$1; h=$2; secs=$3; shift 3
-cd /var/tmp/fuel-core-verif/xk/$x || exit 2
+cd /var/tmp/fuel-core-verif/xk-*/$x || exit 2
 CARGO_NET_OFFLINE=true CARGO_TARGET_DIR=/verif/.cache/kani-target timeout $secs \
   cargo kani --harness $h --exact -Z function-contracts -Z stubbing "$@" > /tmp/xprobe.out 2>&1
 echo "exit=$?"
